@@ -1315,7 +1315,7 @@ pub struct JsonString<'a> {
 impl<'a> JsonString<'a> {
     /// Get the raw bytes including quotes.
     pub fn raw_bytes(&self) -> &'a [u8] {
-        let end = self.find_end();
+        let end = self.find_end().min(self.text.len());
         &self.text[self.start..end]
     }
 
